@@ -80,6 +80,8 @@ def _case(draw):
         tgt = draw(st.sampled_from(comp * 2 + [g["name"] for g in spec["glyphs"] if g.get("contours") or g.get("components")])) if any(g.get("contours") or g.get("components") for g in spec["glyphs"]) else None
         if tgt is not None and not (fam.get("sparse") and tgt in fam["sparse"]["names"]):
             fam["tweaks"] = [{"kind": "empty-glyph", "glyph": tgt, "master": draw(st.integers(2, len(masters) - 1))}]  # an interior master: the remaining ones still span the axis, so the reference stays piecewise linear
+    if draw(st.sampled_from([True, False, False])):
+        fam["listed_reversed"] = True  # the designspace lists its sources in the opposite order: the blend does not depend on the listing
     wmin, wmax = (0, 1000)
     if draw(st.booleans()):
         lo = draw(st.sampled_from([0, 300, 600]))
@@ -269,9 +271,9 @@ def run_case(case, ctx):
         f = make(loc)
         ref_state = None
         if subs:
-            ds2, _ = F.build_designspace(norule_fam, module)
-            for i, s in enumerate([s for s in ds2.sources if s.layerName is None]):
-                s.font.info.ascender = 800 + 25 * fam["masters"][i]["k"]
+            ds2, fonts2 = F.build_designspace(norule_fam, module)
+            for i, f2 in enumerate(fonts2):
+                f2.info.ascender = 800 + 25 * fam["masters"][i]["k"]
             plain = make_instance(Instantiator.from_designspace(ds2, round_geometry=rounding), loc)
             ref_state = instance_state(plain)
             for x, y in subs:
@@ -355,12 +357,24 @@ def run_case(case, ctx):
             if asc != int(asc):
                 ctx.label("info-value-exactly-on-a-half")
         # history independence
-        ds3, _ = F.build_designspace(fam, module)
-        for i, s in enumerate([s for s in ds3.sources if s.layerName is None]):
-            s.font.info.ascender = 800 + 25 * fam["masters"][i]["k"]
+        ds3, fonts3 = F.build_designspace(fam, module)
+        for i, f3 in enumerate(fonts3):
+            f3.info.ascender = 800 + 25 * fam["masters"][i]["k"]
         fresh = make_instance(Instantiator.from_designspace(ds3, round_geometry=rounding), loc)
         if instance_state(fresh) != instance_state(make_instance(inst, loc)) or instance_state(fresh) != state:
             raise Violation("instance generated by a used Instantiator differs from a fresh Instantiator's", call_index=step, location=loc)
+        if step == 0 and not rounding:
+            # the same family with its sources listed in the opposite order gives the same instance (the blend does not depend on the listing)
+            from ufoverif.checks.c14 import approx_equal
+
+            ds4, fonts4 = F.build_designspace(dict(fam, listed_reversed=not fam.get("listed_reversed")), module)
+            for i, f4 in enumerate(fonts4):
+                f4.info.ascender = 800 + 25 * fam["masters"][i]["k"]
+            other = instance_state(make_instance(Instantiator.from_designspace(ds4, round_geometry=rounding), loc))
+            if not approx_equal(other, state, 1e-6):
+                diff = sorted(n for n in set(state["glyphs"]) | set(other["glyphs"]) if not approx_equal(state["glyphs"].get(n), other["glyphs"].get(n), 1e-6))
+                raise Violation("instance depends on the order in which the designspace lists its sources", location=loc, glyphs_differing=diff, kerning_differs=not approx_equal(other["kerning"], state["kerning"], 1e-6))
+            ctx.count("listing-order-comparisons")
         after = [SN.font_snapshot(x) for x in fonts]
         if after != before:
             k = next(i for i, (x, y) in enumerate(zip(before, after)) if x != y)
@@ -385,6 +399,8 @@ def run_case(case, ctx):
     if any(len(v) == len(specs[0]["kerning"]) for v in (fam.get("drop_kerning") or {}).values()):
         ctx.label("master-without-kerning")
     ctx.label("shape=" + case["shape"])
+    if fam.get("listed_reversed"):
+        ctx.label("sources-listed-in-reverse")
     nonmaster = any(tuple(sorted(l.items())) not in masterset for l in case["history"])
     ctx.nontrivial((nonmaster and (nfull > 2 ** len(fam["axes"]) or bool(sparse))) or any(rule_fires(fam, l) for l in case["history"]))
 
